@@ -255,7 +255,7 @@ func init() {
 
 	inbox := func(prop int, tier string, witnesses ...string) HarnessSpec {
 		return HarnessSpec{Name: "inbox-unit", Pkg: "actor", Func: "ZZ_Inbox", Preempt: 2,
-			Params: pm("prop", prop, "T", tierSel(tier, 2, 3), "M", 2, "S", 3), Witnesses: append([]string{"start-races-with-senders"}, witnesses...), Deadline: 40 * time.Minute, TrustRace: prop == 2 || prop == 1}
+			Params: pm("prop", prop, "T", tierSel(tier, 2, 3), "M", 2, "S", 3), Witnesses: append([]string{"start-races-with-senders"}, witnesses...), Deadline: 120 * time.Minute, TrustRace: prop == 2 || prop == 1}
 	}
 	l2 := func(prop int, t, m, crash int, witnesses ...string) HarnessSpec {
 		return HarnessSpec{Name: fmt.Sprintf("process-threads(prop %d)", prop), Pkg: "actor", Func: "ZZ_L2", Preempt: 2,
@@ -380,7 +380,7 @@ func init() {
 		Harnesses: func(tier string) []HarnessSpec {
 			return []HarnessSpec{{Name: "two-nodes-contract-transport", Pkg: "remote", Func: "ZZ_C17", Preempt: 0,
 				Params:    pm("K", tierSel(tier, 2, 3), "TLS", 1, "EMPTY", 1, "ZZMAXALLOC", 1100000, "ZZDETSCHED", 1),
-				Witnesses: []string{"delivered", "dead-lettered", "burst", "peer-down", "peer-up", "reply", "unreachable-and-connected-in-one-history", "tls-configured", "sender-is-a-target-on-the-peer", "empty-message"}, Deadline: 90 * time.Minute},
+				Witnesses: []string{"delivered", "dead-lettered", "burst", "peer-down", "peer-up", "reply", "unreachable-and-connected-in-one-history", "tls-configured", "sender-is-a-target-on-the-peer", "empty-message"}, Deadline: 200 * time.Minute},
 				{Name: "burst-order-under-message-boundary-interleavings", Pkg: "remote", Func: "ZZ_C17_Order", Preempt: tierSel(tier, 3, 4),
 					Params:    pm("M", tierSel(tier, 4, 5), "WARM", 1, "ZZMAXALLOC", 1100000, "ZZDETSCHED", 1, "ZZMARKONLY", 1),
 					Witnesses: []string{"burst-delivered-in-order", "connection-established-before-the-burst"}, Deadline: 60 * time.Minute}}
